@@ -106,6 +106,117 @@ theorem command_failing_reads_bounded (σ : Vd) (idle : Bool) (cmd : Nat) (data 
     (σ.sendReceive idle cmd data).1.port.nE ≤ σ.port.nE + 1 :=
   Vd.sendReceive_nE σ idle cmd data
 
+/-! ### Histories: any number of calls on one driver object -/
+
+/-- one call of the driver's public API -/
+inductive Call where
+  | ping (idle : Bool)
+  | deviceId (idle : Bool)
+  | command (idle : Bool) (cmd addr : Nat)
+  | getRaw (idles : List Bool) (addr : Nat)
+  | getUint (idles : List Bool) (addr : Nat)
+  | getInt (idles : List Bool) (addr : Nat)
+  | getString (idles : List Bool) (addr : Nat)
+
+/-- the state after the call and whether it panicked -/
+def doCall (σ : Vd) : Call → Vd × Bool
+  | .ping i => let r := σ.ping i; (r.1, r.2.isPanic)
+  | .deviceId i => let r := σ.getDeviceId i; (r.1, r.2.isPanic)
+  | .command i c a => let r := σ.veCommand i c a; (r.1, r.2.isPanic)
+  | .getRaw is a => let r := σ.veCommandGet is a; (r.1, r.2.isPanic)
+  | .getUint is a => let r := σ.getUint is a; (r.1, r.2.isPanic)
+  | .getInt is a => let r := σ.getInt is a; (r.1, r.2.isPanic)
+  | .getString is a => let r := σ.getString is a; (r.1, r.2.isPanic)
+
+def histStep (acc : Vd × List Bool) (c : Call) : Vd × List Bool :=
+  ((doCall acc.1 c).1, acc.2 ++ [(doCall acc.1 c).2])
+
+def history (σ : Vd) (cs : List Call) : Vd × List Bool := cs.foldl histStep (σ, [])
+
+theorem lineEnd_port_eq (σ : Vd) : σ.lineEnd.port = σ.port := by
+  unfold Vd.lineEnd; split <;> rfl
+
+/-- one call, from any state: no panic, at most eight frames, at most eight reads that deliver nothing -/
+theorem doCall_bounds (σ : Vd) (c : Call) :
+    (doCall σ c).2 = false ∧ (doCall σ c).1.port.nW ≤ σ.port.nW + 8 ∧ (doCall σ c).1.port.nE ≤ σ.port.nE + 8 := by
+  have isP : ∀ {α} (r : R α), r ≠ .panic → r.isPanic = false := by
+    intro α r h; cases r <;> simp [R.isPanic] at h ⊢
+  cases c with
+  | ping i =>
+    refine ⟨isP _ (ping_no_panic σ i), ?_, ?_⟩
+    · obtain ⟨k, _, _, hn⟩ := σ.sendReceive_written i 1 []
+      simp only [doCall, Vd.ping, lineEnd_port_eq]; omega
+    · have := command_failing_reads_bounded σ i 1 []
+      simp only [doCall, Vd.ping, lineEnd_port_eq]; omega
+  | deviceId i =>
+    refine ⟨isP _ (deviceId_no_panic σ i), ?_, ?_⟩
+    · obtain ⟨k, _, _, hn⟩ := veCommand_written σ i 4 0
+      simp only [doCall, Vd.getDeviceId, lineEnd_port_eq]; omega
+    · have := command_failing_reads_bounded σ i 4 (paramFor 4 0)
+      simp only [doCall, Vd.getDeviceId, lineEnd_port_eq]
+      have e : (σ.veCommand i 4 0).1 = (σ.sendReceive i 4 (paramFor 4 0)).1 := by
+        unfold Vd.veCommand; simp only; split <;> rfl
+      rw [e]; omega
+  | command i c a =>
+    refine ⟨isP _ (veCommand_no_panic σ i c a), ?_, ?_⟩
+    · obtain ⟨k, _, _, hn⟩ := veCommand_written σ i c a
+      simp only [doCall]; omega
+    · have := command_failing_reads_bounded σ i c (paramFor c a)
+      have e : (σ.veCommand i c a).1 = (σ.sendReceive i c (paramFor c a)).1 := by
+        unfold Vd.veCommand; simp only; split <;> rfl
+      simp only [doCall]; rw [e]; omega
+  | getRaw is a =>
+    exact ⟨isP _ (typed_no_panic σ is a).1, writes_bounded σ is a, failing_reads_bounded σ is a⟩
+  | getUint is a =>
+    refine ⟨isP _ (typed_no_panic σ is a).2.1, ?_, ?_⟩
+    · have := writes_bounded σ is a
+      simp only [doCall, Vd.getUint, lineEnd_port_eq]; exact this
+    · have := failing_reads_bounded σ is a
+      simp only [doCall, Vd.getUint, lineEnd_port_eq]; exact this
+  | getInt is a =>
+    refine ⟨isP _ (typed_no_panic σ is a).2.2.1, ?_, ?_⟩
+    · have := writes_bounded σ is a
+      simp only [doCall, Vd.getInt, lineEnd_port_eq]; exact this
+    · have := failing_reads_bounded σ is a
+      simp only [doCall, Vd.getInt, lineEnd_port_eq]; exact this
+  | getString is a =>
+    refine ⟨isP _ (typed_no_panic σ is a).2.2.2, ?_, ?_⟩
+    · have := writes_bounded σ is a
+      simp only [doCall, Vd.getString, lineEnd_port_eq]; exact this
+    · have := failing_reads_bounded σ is a
+      simp only [doCall, Vd.getString, lineEnd_port_eq]; exact this
+
+/-- **Any history on one driver object** — the ninth, the sixty-fifth, the thousandth call like the first, whatever the
+    port delivered, withheld or refused before: no call panics, and the calls together write at most eight frames each
+    and perform at most eight reads that deliver nothing each. (The model has no state besides what `Vd` shows:
+    nothing to count failures in, nothing cached between calls.) -/
+theorem history_bounds (cs : List Call) (σ : Vd) :
+    (history σ cs).2 = List.replicate cs.length false ∧
+    (history σ cs).1.port.nW ≤ σ.port.nW + 8 * cs.length ∧
+    (history σ cs).1.port.nE ≤ σ.port.nE + 8 * cs.length := by
+  have gen : ∀ (cs : List Call) (σ : Vd) (acc : List Bool),
+      (cs.foldl histStep (σ, acc)).2 = acc ++ List.replicate cs.length false ∧
+      (cs.foldl histStep (σ, acc)).1.port.nW ≤ σ.port.nW + 8 * cs.length ∧
+      (cs.foldl histStep (σ, acc)).1.port.nE ≤ σ.port.nE + 8 * cs.length := by
+    intro cs
+    induction cs with
+    | nil => intro σ acc; simp
+    | cons c cs ih =>
+      intro σ acc
+      obtain ⟨h1, h2, h3⟩ := doCall_bounds σ c
+      obtain ⟨g1, g2, g3⟩ := ih (doCall σ c).1 (acc ++ [(doCall σ c).2])
+      simp only [List.foldl_cons, List.length_cons, histStep]
+      refine ⟨?_, by omega, by omega⟩
+      rw [g1, h1]
+      simp [List.replicate_succ]
+  have := gen cs σ []
+  simpa [history] using this
+
+/-- twelve unanswered reads in a row on one object: 96 frames, 96 reads at the end of data, no panic -/
+example : (history { port := {} } (List.replicate 12 (.getUint [] 0xEDF0))).2 = List.replicate 12 false ∧
+    (history { port := {} } (List.replicate 12 (.getUint [] 0xEDF0))).1.port.nW = 96 ∧
+    (history { port := {} } (List.replicate 12 (.getUint [] 0xEDF0))).1.port.nE = 96 := by decide +kernel
+
 /-- non-vacuity / witnesses of the shapes that used to crash: a check-byte-valid Get response with fewer
     than three payload bytes, an empty Done frame -/
 example : (Vd.veCommandGet { port := { replies := List.replicate 8 [":700004E\n".toList.map Char.toNat] } } [true] 0).2 = .err .other := by decide
